@@ -87,6 +87,26 @@ mod c06 {
         check_instant(&m, end, ta, Some(max_t(max_t(t1, t2), t3)));
         vk_end!();
     }
+    // (c'') the three f32 facts from which 0 <= t1 <= t2 <= t3 follows for every accepted profile (the constructor asserts
+    // t1f >= 0, d_t2 >= 0, d_t3 >= 0, sets t2f = t1f + d_t2, t3f = t2f + d_t3 and truncates each with `(x * 1e9) as i64`,
+    // which C07 proves bit-exactly): addition of a non-negative term does not decrease, and x -> (x * 1e9) as i64 is
+    // monotone and non-negative on non-negative x. Each fact is decided over ALL f32; their composition is an argument.
+    #[kani::proof]
+    fn c06_lemma_add_monotone() {
+        let (x, d): (f32, f32) = (kani::any(), kani::any());
+        kani::assume(x >= 0.0 && d >= 0.0);
+        vk_assert!(x + d >= x, "C06.lemma.adding_a_non_negative_duration_does_not_decrease");
+        vk_end!();
+    }
+    #[kani::proof]
+    fn c06_lemma_trunc_monotone() {
+        let (x, y): (f32, f32) = (kani::any(), kani::any());
+        kani::assume(x >= 0.0 && x <= y);
+        let (a, b) = ((x * 1_000_000_000.0) as i64, (y * 1_000_000_000.0) as i64);
+        vk_assert!(0 <= a, "C06.lemma.truncation_to_ns_is_non_negative_on_non_negative_seconds");
+        vk_assert!(a <= b, "C06.lemma.truncation_to_ns_is_monotone");
+        vk_end!();
+    }
     // (c') the same ordering clause on a bounded input grid: positions / velocities / limits k * 0.25 with k in i8
     // (limits non-zero). Within this grid the clause IS decided (CaDiCaL); outside it, it is not (see not_decided).
     #[kani::proof]
@@ -121,6 +141,9 @@ def spec(ctx):
         Harness("c06_pieces_never_go_back", "e2", split=True, timeout=400, clause="arbitrary phase boundaries (hook): piece order monotone in t; exact intervals when ordered"),
     ]
     nd = ["phase boundaries at or beyond 2^60 ns (rrtk's checked i64 arithmetic may panic there)"]
+    if os.environ.get("VK_C06_LEMMAS"):
+        hs.append(Harness("c06_lemma_add_monotone", "e1", timeout=1500, clause="f32: x >= 0, d >= 0 => x + d >= x (all f32)"))
+        hs.append(Harness("c06_lemma_trunc_monotone", "e1", timeout=1500, clause="f32: 0 <= x <= y => 0 <= (x*1e9) as i64 <= (y*1e9) as i64 (all f32)"))
     if not ctx.quick and os.environ.get("VK_C06_GRID"):
         hs.append(Harness("c06_constructor_orders_phases_grid", "e1", timeout=3000, allow_fail=CTOR_REJECTS,
                           clause="constructor ordering 0 <= t1 <= t2 <= t3 on the input grid k*0.25, k in i8 (6 inputs)"))
@@ -128,7 +151,8 @@ def spec(ctx):
     # They need monotonicity of f32 '+', '* 1e9' and of the saturating float->int cast: non-structural facts. The harness is kept
     # in the generated crate for reference but is not part of either tier.
     nd.append("'the constructor either panics or yields 0 <= t1 <= t2 <= t3': t1 >= 0 is decided (C07 proves t1 == trunc(t1f*1e9) with t1f >= 0 asserted by the constructor), "
-              "t1 <= t2 <= t3 is NOT decided (cvc5 and z3 both exceed 900 s; needs monotonicity of f32 +, *1e9 and the saturating cast)")
+              "t1 <= t2 <= t3 is NOT decided (cvc5 and z3 both exceed 900 s). Of the three f32 facts it reduces to, 'x >= 0, d >= 0 => x + d >= x' IS decided for all f32 "
+              "(CaDiCaL, env VK_C06_LEMMAS=1), but 'x <= y => (x*1e9) as i64 <= (y*1e9) as i64' is not (CaDiCaL 1500 s; z3 and cvc5 on the native FloatingPoint theory 900 s each)")
     return {
         "crates": [{"rust": RUST, "harnesses": hs}],
         "functions": ["MotionProfile::{new, get_piece, get_mode, get_acceleration, get_velocity, get_position}", "History<Command> for MotionProfile",
